@@ -46,12 +46,12 @@ Example C13_capture_group_example : capture_group [40; 97; 41] = [40; 97; 41] /\
 Proof. split; reflexivity. Qed.
 
 (* at the level of the TEXT (Rexpy/Regex.v): every expression of one batch extraction compiles (parses in the modelled
-   fragment of the syntax) and matches one of the working examples *)
-Theorem C13_text_each_matches_some : forall ct o stripped gt ex merged rex,
-  batch_extract ct o [] stripped gt ex = Ok (merged, rex) ->
+   fragment of the syntax) and matches one of the working examples - for every set of extra letters *)
+Theorem C13_text_each_matches_some : forall ct o e stripped gt ex merged rex,
+  batch_extract ct o e stripped gt ex = Ok (merged, rex) ->
   table_ok ct -> 1 <= z_max_strings_in_group o ->
-  batch_oracle_okb ct o [] stripped gt ex = true ->
-  batch_renderable ct o stripped gt ex = true ->
+  batch_oracle_okb ct o e stripped gt ex = true ->
+  batch_renderable ct o e stripped gt ex = true ->
   forall text, In text rex -> exists s, In s (ex_strings ex) /\ re_model_match ct text s = Some true.
 Proof. exact batch_text_each_matches. Qed.
 Print Assumptions C13_text_each_matches_some.
